@@ -59,8 +59,11 @@ def case_chain(case):
     for j, s in enumerate(stages):
         inp = prev if (s["preceding"] and j > 0 and prev is not None) else case["recs"]
         if s["preceding"] and j > 0 and not prev:
+            # the predecessor collected nothing: this member reads an empty input and collects nothing
             zero_pred = True
-            break
+            expected.append(([], []))
+            prev = []
+            continue
         path = real_run.write_file(f"stage{j}.csv", inp)
         out, _ = real_run.run_single(f"${path}[*][{s['match']}]", "collect", policy=["collect"])
         if "parse_error" in out or out.get("raised"):
@@ -68,11 +71,11 @@ def case_chain(case):
             return res
         expected.append((inp, out["lines"]))
         prev = out["lines"]
-    if zero_pred:
-        # known finding: the predecessor left no data.csv
-        if raised:
-            res["oracle"].append({"what": f"source-mode preceding after a member that collected nothing raises {raised}",
-                                  "finding": "preceding-after-empty"})
+    if zero_pred and raised and "FileNotFoundError" in str(raised):
+        # known finding: the predecessor left no data.csv and the run raises (any other outcome at this
+        # point - another exception, or a run that quietly reads some other file - is judged below)
+        res["oracle"].append({"what": f"source-mode preceding after a member that collected nothing raises {raised}",
+                              "finding": "preceding-after-empty"})
         return res
     if raised:
         res["oracle"].append({"what": f"collect_paths raised {raised}"})
